@@ -11,7 +11,15 @@ from vf.common import Report, load_known_findings
 from vf.sym import tv
 
 
+_DEADLINE = [None]  # wall-clock deadline of the whole run (thorough tier only); jobs that would start after it are reported as not run
+_SKIP = {"status": "not_run_time_budget", "notes": [], "paths": 0, "discharged": 0, "cex": 0, "unknown": 0, "outside": 0, "known": 0, "errors": 0,
+         "truncated": False, "branch_queries": 0, "assert_queries": 0, "solver_s": 0.0, "findings": [], "validated": 0, "divergences": [], "kf_used": {},
+         "unmodelled": {}}
+
+
 def _job_worker(job):
+    if _DEADLINE[0] is not None and time.time() > _DEADLINE[0]:
+        return dict(_SKIP, id=job.get("id"))
     try:
         return tv.run_job(job)
     except BaseException:
@@ -25,12 +33,30 @@ def run_jobs(jobs, nproc=16):
 
     if not jobs:
         return []
+    # VERIF_RUN_BUDGET_S: wall budget of the whole job list (default: none in the quick tier, 1200 s in the thorough tier).  When it is
+    # set the jobs run in a fixed pseudo-random order, so that what is left out at the deadline is a spread sample, and evidence counts it.
+    budget = os.environ.get("VERIF_RUN_BUDGET_S")
+    if budget is None and os.environ.get("VERIF_TIER") == "thorough":
+        budget = "1200"
+    order = list(range(len(jobs)))
+    if budget and float(budget) > 0:
+        import hashlib
+
+        _DEADLINE[0] = time.time() + float(budget)
+        order.sort(key=lambda i: hashlib.sha256(str(jobs[i].get("id")).encode()).hexdigest())
+    else:
+        _DEADLINE[0] = None
     nproc = min(nproc, os.cpu_count() or 1, len(jobs))
     if nproc <= 1:
-        return [_job_worker(j) for j in jobs]
-    ctx = mp.get_context("fork")
-    with ctx.Pool(nproc, maxtasksperchild=300) as pool:
-        return pool.map(_job_worker, jobs, chunksize=1)
+        res = [_job_worker(jobs[i]) for i in order]
+    else:
+        ctx = mp.get_context("fork")
+        with ctx.Pool(nproc, maxtasksperchild=300) as pool:
+            res = pool.map(_job_worker, [jobs[i] for i in order], chunksize=1)
+    out = [None] * len(jobs)
+    for i, r in zip(order, res):
+        out[i] = r
+    return out
 
 
 def kf_taints(prop):
@@ -83,6 +109,7 @@ def fold(rep: Report, prop, jobs, results, explanation, extra_cov=None, min_conc
     solver_s = 0.0
     nprog = 0
     not_prog = 0
+    not_run = 0
     trunc = 0
     trunc_ids = []
     crashed = 0
@@ -97,6 +124,9 @@ def fold(rep: Report, prop, jobs, results, explanation, extra_cov=None, min_conc
     for r in results:
         if r["status"] == "not_a_program":
             not_prog += 1
+            continue
+        if r["status"] == "not_run_time_budget":
+            not_run += 1
             continue
         if r["status"] == "crash":
             crashed += 1
@@ -137,7 +167,8 @@ def fold(rep: Report, prop, jobs, results, explanation, extra_cov=None, min_conc
             continue
         seen.add(key)
         job = by_id.get(f["job"], {})
-        payload = {"property": prop, "job": {k: job.get(k) for k in ("id", "schema", "rows", "A", "B", "ordered", "assume")}, "input": f.get("input"),
+        payload = {"property": prop, "job": {k: job.get(k) for k in ("id", "schema", "rows", "A", "B", "ordered", "assume", "compare", "check_cols", "b_may_raise",
+                                                                      "allow_window_ties", "inf", "kf_on", "renaming") if k in job}, "input": f.get("input"),
                    "why": f["why"], "engines": f.get("engines")}
         rep.violation(payload, f"{f['job']}: {f['why']} input={json.dumps(f.get('input'), default=str)[:300]}")
     for f in unconfirmed:
@@ -145,7 +176,7 @@ def fold(rep: Report, prop, jobs, results, explanation, extra_cov=None, min_conc
     cov = {
         "explanation": explanation,
         "programs": nprog,
-        "not_programs_rejected_by_builder": not_prog,
+        "not_programs_rejected_by_builder": not_prog, "programs_not_run_time_budget": not_run,
         "disagreements_checked": len(confirmed) + len(unconfirmed),
         "paths": tot["paths"], "discharged": tot["discharged"], "counterexamples": tot["cex"], "unknown": tot["unknown"],
         "outside_claim_paths": tot["outside"], "known_finding_paths": tot["known"], "path_errors": tot["errors"],
